@@ -57,6 +57,8 @@ pub struct Gen<'a> {
     /// file each class / function was generated in, the current file, and the files whose
     /// declarations the current file may use (cross-file use in generated projects)
     pub class_file: Vec<usize>,
+    /// files that already define the one-letter print helper
+    pub fstr_helper: BTreeSet<usize>,
     pub fun_file: Vec<usize>,
     pub cur_file: usize,
     pub visible_files: BTreeSet<usize>,
@@ -81,6 +83,7 @@ impl<'a> Gen<'a> {
             counter: 0,
             prefix: prefix.to_string(),
             class_file: vec![],
+            fstr_helper: BTreeSet::new(),
             fun_file: vec![],
             cur_file: 0,
             visible_files: BTreeSet::new(),
@@ -1312,7 +1315,22 @@ impl<'a> Gen<'a> {
             14 => {
                 // f-string over primitive variables
                 let names: Vec<String> = self.vars.iter().filter(|(_, t)| !matches!(t, Ty::Class(_))).map(|(n, _)| n.clone()).collect();
-                if !names.is_empty() {
+                if !names.is_empty() && self.rng.chance(1, 2) {
+                    // through a helper with a one-letter name, the string starting with a
+                    // placeholder: the placeholder then sits in the column where definitions
+                    // have their variable
+                    let h = ["q", "w", "k", "z", "j"][self.cur_file % 5];
+                    if self.fstr_helper.insert(self.cur_file) {
+                        self.out.push_str(&format!("def {h}(s: Str) => print(s)\n"));
+                    }
+                    let a = self.rng.pick(&names).clone();
+                    let b = self.rng.pick(&names).clone();
+                    if self.rng.chance(1, 2) {
+                        self.out.push_str(&format!("{h}(\"{{{a}}}\")\n"));
+                    } else {
+                        self.out.push_str(&format!("{h}(\"{{{a}}} {} {{{b}}}\")\n", self.rng.pick(WORDS)));
+                    }
+                } else if !names.is_empty() {
                     let a = self.rng.pick(&names).clone();
                     let b = self.rng.pick(&names).clone();
                     self.out.push_str(&format!("print(\"{} is {{{}}} and {{{}}}\")\n", self.rng.pick(WORDS), a, b));
